@@ -205,6 +205,7 @@ func runWsTrial(id int, seed int64, url string) *wsTrialResult {
 				}
 			}()
 			<-start
+			wrnd := rand.New(rand.NewSource(seed*131 + int64(i))) // math/rand sources are not safe for concurrent use
 			for j := 0; j < perWriter; j++ {
 				msg := []byte{1, byte(i), byte(j), 0xAA}
 				closedBefore, _ := sut.IsDataConnectionClosed()
@@ -217,7 +218,7 @@ func runWsTrial(id int, seed int64, url string) *wsTrialResult {
 				} else {
 					wr[i].rejected++
 				}
-				if rnd.Intn(3) == 0 {
+				if wrnd.Intn(3) == 0 {
 					time.Sleep(time.Duration(50+i*37%200) * time.Microsecond)
 				}
 			}
